@@ -66,7 +66,7 @@ func C09_Middleware() {
 	loggedIn := pre[authboss.SessionKey].ok
 	deadline := time.Unix(stampSec, 0).Add(expireAfter)
 	expired := verif.And(verif.And(loggedIn, hasStamp), !tb.Before(deadline)) // every clock reading is at/after the deadline
-	fresh := verif.And(loggedIn, verif.Or(!hasStamp, ta.Before(deadline)))   // every clock reading is before the deadline
+	fresh := verif.And(loggedIn, verif.Or(!hasStamp, ta.Before(deadline)))    // every clock reading is before the deadline
 	verif.Witness(expired, "expired-session")
 	verif.Witness(verif.And(fresh, hasStamp), "fresh-session")
 	verif.Witness(verif.And(fresh, !hasStamp), "session-without-stamp")
